@@ -282,4 +282,17 @@ def run(tier):
     rep.assumptions += ["rests on the ThreadPool (C29) and ProcessManager (C30) rules",
                         "functions reachable from the task are scanned per unit of tfel-check/src, src/System, src/Utilities "
                         "(quick: units spelling the primitives)"]
+    # premises: the verdict of a @Command is ProcessManager::execute's and the tasks run on ThreadPool; a violated
+    # discipline rule of C29 / C30 makes the verdict schedule-dependent, so their rules are re-run here as premises
+    import importlib
+    for pid in ("C30", "C29"):
+        sub = importlib.import_module(pid).run(tier)
+        rep.count("premise rules (%s) obligations" % pid, sub.obligations)
+        known = load_known_findings()
+        for v in sub.violations:
+            if (pid, v["key"]) in known:
+                continue
+            rep.fail("PREMISE-%s:%s" % (pid, v["key"]), "premise of C52 (rule of %s) violated: %s" % (pid, v["msg"]))
+        rep.discharged += sub.discharged
+        rep.obligations += sub.discharged
     return rep
